@@ -354,3 +354,8 @@ def loops_exhausted():
 def ascii_lower(c):
     """Lower-case image of an ASCII capital letter."""
     return chr(ord(c) + 32)
+
+
+def py_repr(x):
+    """repr(x): for str/float/int the Python literal that evaluates back to x (language guarantee)."""
+    return repr(x)
